@@ -3,6 +3,7 @@
 mod codec_drv;
 mod framing_drv;
 mod outbound_drv;
+mod pool_drv;
 mod server_drv;
 mod unicode_drv;
 mod gen_schema;
@@ -25,6 +26,7 @@ fn main() {
     "unicode" => unicode_drv::run(&cases),
     "server" => server_drv::run(&cases),
     "outbound" => outbound_drv::run(&cases),
+    "pool" => pool_drv::run(&cases),
     other => {
       eprintln!("unknown driver {other}");
       std::process::exit(2);
